@@ -8,6 +8,7 @@ package verify
 //@   ensures[C01] err == nil ==> result != nil && certDer(result) == val(certder) && chainsTo(val(certder), rootsOfTrust, now)
 //@   ensures[C01] err == nil ==> len(certder) != 0 && rootsOfTrust != nil
 //@   ensures[C01] err != nil ==> result == nil
+//@   ensures[C03] len(certder) != 0 && rootsOfTrust != nil && parseOK(val(certder)) && chainsTo(val(certder), rootsOfTrust, now) ==> err == nil
 //@   assigns[C09] nothing
 
 //@ func EndorsementProto
